@@ -1041,6 +1041,12 @@ def run(chk):
     chk.notes["c15"] = stats
     _cs = {}
     cli_option_stream(chk, chk.rng, _cs)
+    # the whole-program model (Whole/*.v), on which this property's whole-program theorems rest, against the real command line
+    import whole as _whole
+    import random as _random
+    _ws = {}
+    _whole.whole_stream(chk, _random.Random(chk.seed * 7919 + 15), 60 if chk.tier == "quick" else 2500, _ws)
+    chk.notes["whole_program_tie"] = _ws
     chk.coverage["rule"] = (
         "one evaluation = one (alias set, host template, mode) driven through the implementation: a pair of "
         "tempren.cli.main() runs on identical trees (alias vs inlined text, or alias vs str literal in -s/-ft), or one "
